@@ -48,6 +48,9 @@ CONSTANTS Ops,      \* operations to enumerate
                     \* "no_purge" (start-up does not purge marked messages), "row_first" (APPEND commits the
                     \* row before the literal is stored and nothing re-downloads), "split_move" (MOVE removes
                     \* and adds in two transactions)
+          AppendFix,   \* FALSE = the code as it is: Mailbox.Append rescues the message into the recovery mailbox whenever
+                       \* AppendRegular returns an error, also when only the second transaction failed (see Deviation);
+                       \* TRUE = the proposed fix (no rescue once the first transaction has committed)
           ErrThenKill, \* TRUE: also enumerate "step k fails, the operation is answered, then the process is killed"
           Emit      \* TRUE: print every terminal state as JSON
 
@@ -97,7 +100,7 @@ StepsOf(op) ==
          THEN H(<<Begin, Rd("tx.GetMessageIDFromRemoteID"), CreateAdd("A", "m4", {}), Commit, Set("m4")>>, "recover")
               \o H(EmptyTx, "recover") \o H(<<Begin, Nop("tx.ClearRecentFlagInMailboxOnMessage"), Commit>>, "end")
          ELSE H(<<Begin, Rd("tx.GetMessageIDFromRemoteID"), Set("m4"), CreateAdd("A", "m4", {}), Commit>>, "recover")
-              \o H(EmptyTx, "recover")                                                 \* stateDBWrite: second transaction (state updates)
+              \o H(EmptyTx, IF AppendFix THEN "end" ELSE "recover")                                                 \* stateDBWrite: second transaction (state updates)
               \o H(<<Begin, Nop("tx.ClearRecentFlagInMailboxOnMessage"), Commit>>, "end")   \* flush
     [] op = "COPY" ->        \* COPY 1 B
          H(<<Begin, Rd("tx.MailboxFilterContains"), Rd("tx.GetMailboxMessageCountAndUID"), Add("B", "m1"), Commit>>, "flush")
@@ -335,14 +338,24 @@ Listed(d) == UNION {Range(d.boxes[b].msgs) : b \in DOMAIN d.boxes}
 \* everything acknowledged before the crash / shutdown is in the committed database
 AckedSurvives == (Recovered /\ acked = "OK") => View(disk.db) = View(Post)
 
-\* all mailboxes and the subscriptions are those before or those after the operation - never a mixture.  The one
-\* exception is gluon's rescue of a failing APPEND: the user's mailboxes are before-or-after and the recovery
-\* mailbox has gained the message (it never loses one that way).
-BoA(d) ==
-  \/ View(d) \in {View(Pre), View(Post)}
-  \/ /\ op = "APPEND" /\ fault.kind \in {"error", "errkill"}
-     /\ UserView(d) \in {UserView(Pre), UserView(Post)}
-     /\ \A e \in Range(Pre.boxes[Recovery].msgs) : e \in Range(d.boxes[Recovery].msgs)
+\* all mailboxes and the subscriptions are those before or those after the operation - never a mixture.
+\* Rescued: gluon's answer to an APPEND it could not perform - the target mailbox is untouched and the recovery
+\* mailbox has gained the message (it loses nothing that way): this is the designed outcome of a failed APPEND.
+KeepsRecovered(d) == \A e \in Range(Pre.boxes[Recovery].msgs) : e \in Range(d.boxes[Recovery].msgs)
+Rescued(d) == /\ op = "APPEND" /\ fault.kind \in {"error", "errkill"}
+              /\ UserView(d) = UserView(Pre) /\ KeepsRecovered(d)
+StrictBoA(d) == View(d) \in {View(Pre), View(Post)} \/ Rescued(d)
+
+\* What the code does but the property does not allow (the harness reports it from the real server when it sees it):
+\*   appended-and-rescued   stateDBWriteResult also fails when only its SECOND transaction (telling the sessions)
+\*                          fails; Mailbox.Append takes that for "not appended" and rescues the message although
+\*                          the first transaction has committed it: answered NO, in the target AND in the recovery mailbox.
+Deviation(d) ==
+  IF /\ op = "APPEND" /\ fault.kind \in {"error", "errkill"}
+     /\ UserView(d) = UserView(Post) /\ View(d) # View(Post) /\ KeepsRecovered(d)
+  THEN "appended-and-rescued" ELSE ""
+
+BoA(d) == StrictBoA(d) \/ Deviation(d) # ""
 BeforeOrAfter == Recovered => BoA(disk.db)
 
 \* a message someone was told NO about is not lost either: after a failed APPEND the bytes are in the target or rescued
@@ -369,7 +382,8 @@ PrintCase ==
      PrintT(ToJson([op |-> op, k |-> fault.k, kind |-> fault.kind, nsteps |-> Len(StepsOf(op)),
                     steps |-> trace, ack |-> acked,
                     live |-> [none |-> live.none, boxes |-> View(live.v).boxes, dsubs |-> View(live.v).dsubs, flags |-> View(live.v).flags],
-                    allowed |-> {Proj(disk)},
+                    allowed |-> IF StrictBoA(disk.db) THEN {Proj(disk)} ELSE {},    \* what the property allows
+                    yields |-> Proj(disk), deviation |-> Deviation(disk.db),        \* what this model of the code ends in
                     pre |-> Proj(PreDisk(op)), post |-> Proj(PostDisk(op)),
                     content |-> Content]))
 =============================================================================
